@@ -324,7 +324,7 @@ async fn observe(w: &World, with_rows: bool) -> Obs {
     let all: Vec<object_store::ObjectMeta> = w.raw.list(None).try_collect().await.unwrap();
     for om in &all {
         let p = om.location.to_string();
-        if p.starts_with("metadata/") {
+        if p.starts_with("metadata") {
             continue;
         }
         let name = w.gate.chunk_name(&p);
